@@ -15,14 +15,14 @@ def _unhex(h):
 
 
 def _cases(path):
-    """Split a harness output file into cases (a case starts at `C M`, `S` or `W`)."""
+    """Split a harness output file into cases (a case starts at `C M`, `I`, `S` or `W`)."""
     out, cur = [], []
     with open(path, errors="replace") as f:
         for line in f:
             line = line.rstrip("\n")
             if line.startswith("B "):      # information about a restart batch, not part of any case
                 continue
-            if line.startswith(("C M ", "S ", "W ")):
+            if line.startswith(("C M ", "S ", "W ", "I ")):
                 if cur:
                     out.append(cur)
                 cur = [line]
@@ -282,7 +282,7 @@ class C14(Check):
     required_theorems = ["modify_restore_partial", "modify_restore_absent_counterexample", "modify_restore_below_counterexample",
                          "modify_restore_emptydict_counterexample", "restore_clears_original", "modify_restore_meets_spec_partial",
                          "modification_survives_restart", "modifications_survive_restart",
-                         "serialize_id", "deserialize_id_partial", "state_roundtrip_partial", "state_roundtrip_counterexample",
+                         "serialize_id", "deserialize_id_partial", "state_roundtrip_partial", "state_roundtrip_counterexample", "restart_meets_spec", "kill_meets_spec",
                          "crash_old_or_new", "crash_old_or_new_conforming", "complete_write_reads_new", "crash_leaves_only_tmp", "atomic_write_conforms"]
     technique = ("Lean 4 proof (round-trip law composed with C20's JSON/netstring theorems, algebra of modify/restore on value trees, invariant over "
                  "the system-call sequence of AtomicFile under an adversarial crash model) about hand-written executable models; correspondence by "
@@ -294,14 +294,21 @@ class C14(Check):
                   "for every list of objects whose state trees name only registered types in `type` keys and EVERY chunking of the state file, reading the frames, "
                   "JSON-decoding and deserialising onto freshly created objects yields exactly the dumped state (C20's json_roundtrip and "
                   "frames_split_regardless_of_chunking composed with Serialize/Deserialize); for every prefix of AtomicFile's system-call sequence and every crash "
-                  "view (any earlier directory state, arbitrary contents of unsynced files) the target path reads as the complete old or the complete new content, and the only new name left behind is the temp file. "
+                  "view (any earlier directory state, arbitrary contents of unsynced files) the target path reads as the complete old or the complete new content, and the only new name left behind is the temp file; "
+                  "two whole-trace theorems tie these to the executable specification: restart_meets_spec (for every object list and chunking the model's restart satisfies specRestartState and "
+                  "specRestartPinned - every attribute the statement names, pinned per type in Spec.lean, is in the record with the identical value - given that the pinned attributes are among the "
+                  "dumped fields, which clause stateInventory checks against the type reflection of the running binary on every run) and kill_meets_spec (for every prefix of AtomicFile's calls the "
+                  "classified read satisfies specCrash, `completed` exactly for the full sequence). "
                   " The full statements are false of the pinned code in several ways (F-C14a-d,g and C17's number rounding), carried as kernel-checked counterexamples "
                   "and/or corpus witnesses replayed on the real code on every run; EVERY failing generated case is minimised and attributed to a known finding only "
                   "if repairing that recorded hazard in the minimised witness and re-running makes the failure vanish. The models are tied to the code by running the real functions on the same inputs "
                   "and diffing every observation; the specification predicates are evaluated on the implementation's own observations")
     level_note = ("Trusted: Lean kernel (+ propext, Classical.choice, Quot.sound), sampled correspondence, harness/driver, the kernel's rename atomicity and fsync "
                   "durability (parameters of the crash model). Assumed, fuzzed by C20: binary64 <-> text. Not modelled: the ConfigWriter/DSL text of the "
-                  "modified-attributes script (C17; which entries are written with which values and their replay ARE modelled and diffed on every S case), field types/validation, a user dictionary whose `type` names a registered type.")
+                  "modified-attributes script (C17; which entries are written with which values and their replay ARE modelled and diffed on every S case; numbers and dictionary keys whose text does not read "
+                  "back enter as oracles computed with the real writer+compiler), field types/validation, a user dictionary whose `type` names a registered type (reproduced: instantiated as that type, "
+                  "recorded under F-C14c), Start()/OnStateLoaded effects after the restore, the API/cluster/external-command entry points of ModifyAttribute, the kill points of a runtime object's "
+                  "config file through its real caller (ConfigObjectUtility::CreateObject; AtomicFile::Write itself is crash-tested).")
     trusted_base = [
         "modelled, not verified: ConfigObject::ModifyAttribute/RestoreAttribute on value trees (deep-clone semantics), Serialize/Deserialize on trees with the `type` special case, "
         "DumpObjects/RestoreObject framing, AtomicFile's call sequence (mkstemp, chmod, write*, fsync, close, rename)",
@@ -310,6 +317,8 @@ class C14(Check):
         "a Dictionary is a key-sorted association list; `dSet` on an existing key replaces in place, otherwise inserts in key order (identical to std::map on sorted lists)",
         "typed fields convert Empty to their zero value (notes \"\", check_interval 0): applied by the driver to the model's result",
         "the harness injects process kills (exit inside the k-th intercepted call, also after half of a write's bytes), not power loss",
+        "the list of attributes the statement names (pinnedState in Spec.lean: Host/Service 26/28, Notification 9, Downtime 3, User 1, CheckResult 16) is hand-pinned; their "
+        "FAState flags are read from Type::GetFieldInfo of the running binary (I lines) and their values through GetField, independent of Serialize's attribute mask",
     ]
     assumptions = [
         "number tokens are compared as printed by the same JsonEncode before and after (binary64 <-> text round trip is C20's assumption)",
@@ -317,12 +326,16 @@ class C14(Check):
         "the previous version of a file is durable when the next write starts (quiescent start of the crash model)",
         "generated attribute values are well-typed for their field and contain no unterminated '$' (ValidateField is not modelled)",
         "the config writer's number text (C17) enters the modified-attributes model as an oracle: what ConfigWriter::EmitValue + ConfigCompiler make of each modified number",
+        "likewise the writer's text of dictionary keys: a key k for which the written `{ k = 1 }` does not evaluate to the same dictionary makes the model reject the whole script (F-C14i, fixed by 3c83e1d; the generator emits every lexer keyword as a key)",
+        "restart objects are registered but not activated (no Start(), no timers); Notification/Downtime/Comment/User state is set through the reflection setters",
     ]
     rule = ("seeded random: modify/restore sequences (2-8 operations; paths vars, vars.k, vars.k.k, vars.k.k.k over existing and absent keys, notes, check_interval, unknown "
             "fields; restores of modified, unmodified, related paths; values: scalars, arrays, dictionaries, `type` keys, odd keys) on a fresh real Host per case, diffed "
-            "after every operation (attribute tree + original_attributes); stop/start: real Host/Service objects with generated state (executions, last_check_result "
-            "with command/perfdata/vars_after trees, scalar state) and runtime modifications -> DumpObjects + DumpModifiedAttributes -> freshly exec'ed process -> same "
-            "config -> RestoreObjects + ActivateItems(withModAttrs) -> Serialize compared; crash points: EVERY intercepted call (plus half-written writes) of DumpObjects, "
+            "after every operation (attribute tree + original_attributes); attribute inventories of Host, Service, Notification, Downtime, Comment, User, CheckResult from the type "
+            "reflection against the pinned list; stop/start: real Host/Service/Notification/Downtime/Comment/User objects with generated state (executions, last_check_result "
+            "with command/perfdata/vars_after trees, every pinned scalar, notification bookkeeping, downtime triggers) and runtime modifications (values with dictionary keys the config "
+            "writer must quote: leading digits, keywords, punctuation) -> DumpObjects + DumpModifiedAttributes -> freshly exec'ed process -> same "
+            "config -> RestoreObjects + ActivateItems(withModAttrs) -> Serialize compared AND the pinned attributes compared through their getters; crash points: EVERY intercepted call (plus half-written writes) of DumpObjects, "
             "DumpModifiedAttributes and AtomicFile::Write, a forked child dies inside it, the parent reads the file and loads it with the real loader in another child. "
             "evaluations = operations + restarts + kills; a case is non-trivial (distinct by hash of its operation lines, counted by the Lean driver) when it restored a "
             "modified path, went through a restart, or is a write with kill points")
@@ -559,7 +572,7 @@ class C14(Check):
                 {"origin": origin, "minimised": True, "failing_cases": g["n"], "distinct_minimal_witnesses": g["witnesses"],
                  "repairs": g["trail"], "further_unattributed_witnesses": g["extra"]},
                 {"clause": clause, "classes": g["classes"]}))
-        s_groups = {}
+        s_groups, unattributed = {}, {}
         for l, kv, case, idx in others:
             clause = kv.get("clause", "?")
             if case[0].startswith("S "):
@@ -567,6 +580,9 @@ class C14(Check):
                 classes, trail = ([], ["model and implementation disagree"]) if disagree else \
                     self._attribute_s(harness, driver, case[0], clause)
                 shown = case[:1]
+                if not classes:
+                    unattributed.setdefault(clause, []).append((l, shown, trail, disagree))
+                    continue
             else:
                 classes, trail = [], []
                 shown = [case[0]] + [c for k, c in enumerate(case) if k == idx and k > 0]
@@ -575,11 +591,35 @@ class C14(Check):
             g["n"] += 1
             if not classes and g["n"] > 1 and len(g["extra"]) < 4:
                 g["extra"].append(shown)
+        # Unattributed restart cases.  The objects of one restart share the state file and the modified-attributes script, so
+        # a failing object may be collateral damage of another one: the replay is (1) one of the first cases if it fails on
+        # its own in the same way (where model and implementation disagreed in the run they must disagree alone too -
+        # otherwise it fails alone for another, possibly recorded, reason), else (2) the failing cases minimised together.
+        for clause, items in sorted(unattributed.items()):
+            any_dis = any(it[3] for it in items)
+
+            def fails(ls, any_dis=any_dis, clause=clause):
+                ok = self._try(harness, driver, ls, "SPECFAIL", "clause=" + clause)[0]
+                return ok and (not any_dis or any(m.startswith("MISMATCH") for m in self._last_driver))
+            l0, shown, trail, _ = items[0]
+            solo = None
+            for it in items[:3]:
+                if fails(it[1]):
+                    solo = True
+                    l0, shown, trail = it[0], it[1], it[2]
+                    break
+            if not solo and len(items) > 3:
+                together = [it[1][0] for it in items]
+                if fails(together):
+                    shown = runner.ddmin([], together, fails)
+                    solo = len(shown) == 1
+            s_groups[(clause, "other")] = {"classes": [], "shown": shown, "n": len(items), "trail": trail, "driver": l0, "solo": solo,
+                                           "extra": [it[1] for it in items[1:4]] if not solo else []}
         for (clause, cls), g in sorted(s_groups.items()):
             res.spec_failures.append(runner.Finding(
                 "spec", f"spec:C14:{clause}:{cls}", g["shown"],
                 {"driver": g["driver"], "origin": origin, "minimised": True, "failing_cases": g["n"], "repairs": g["trail"],
-                 "further_unattributed_witnesses": g["extra"]},
+                 "fails_on_its_own": g.get("solo"), "further_unattributed_witnesses": g["extra"]},
                 {"clause": clause, "classes": g["classes"]}))
         # disagreements between model and implementation
         seen = set()
@@ -627,9 +667,6 @@ class C14(Check):
                 stats = {k: int(v) for k, v in core.parse_kv(l).items() if v.lstrip("-").isdigit()}
         if not stats:
             raise core.TieBroken("driver:c14:no-stats", "\n".join(lines[-20:]))
-        if stats.get("state_file_max_bytes", 0) < 2 * 65536 or stats.get("s_restored_before_dump", 0) < 4 or stats.get("s_too_deep", 0) < 1:
-            raise core.TieBroken("generator:c14:coverage", "the restart generator no longer produces a state file above 128 KiB, "
-                                 "modifications restored before the last dump, or state beyond the decoder's nesting limit: " + str(stats))
         stats.update(total)
         res.stats = stats
         res.evaluations = stats.get("steps", 0)
@@ -642,6 +679,16 @@ class C14(Check):
         res.samples = [l[:400] for c in pick for l in c[:6]]
         res.extra = {"faults_fired_per_syscall": {k[6:]: v for k, v in stats.items() if k.startswith("fault_")}}
         self._collect(res, lines, save, harness, driver, "generated")
+        need = {"s_restored_before_dump": 4, "s_too_deep": 1, "s_notification": 5, "s_downtime": 5, "s_user": 3, "s_comment": 1,
+                "s_writer_keys": 10, "inventories": 7, "inventory_pinned": 60, "s_modattrs": 20}
+        short = {k: stats.get(k, 0) for k, v in need.items() if stats.get(k, 0) < v}
+        if stats.get("state_file_max_bytes", 0) < 2 * 65536:
+            short["state_file_max_bytes"] = stats.get("state_file_max_bytes", 0)
+        if short and not any(not (f.classifier_data or {}).get("classes") for f in res.spec_failures):
+            # (with a spec failure at hand the concrete failing input is the better report: e.g. a dump that writes nothing)
+            raise core.TieBroken("generator:c14:coverage", "the restart generator no longer produces a state file above 128 KiB, "
+                                 "modifications restored before the last dump, state beyond the decoder's nesting limit, every object kind, "
+                                 "dictionary keys the config writer must quote, or the attribute inventories: " + str(short))
         return res
 
     def replay(self, path, harness, driver):
